@@ -446,9 +446,12 @@ impl<'r, R: ReadValue> Fields<'r, R> {
         let value = match wire_type {
             0 => self.reader.read_varint().map(FieldValue::Varint),
             1 => self.reader.read_i64().map(FieldValue::I64),
-            2 => self.reader.read_varint().map(|val| {
+            2 => self.reader.read_varint().and_then(|val| {
+                // A field cannot extend beyond the end of the enclosing
+                // message or the input.
+                self.reader.check_has_bytes(val)?;
                 len = val;
-                FieldValue::Len(val)
+                Ok(FieldValue::Len(val))
             }),
             3 => Ok(FieldValue::Sgroup),
             4 => Ok(FieldValue::Egroup),
